@@ -296,7 +296,7 @@ def expression_tie(run, rnd, quick):
         out = orig_l(node, ctx)
         captured['out'] = copy.deepcopy(out)      # later passes mutate the tree in place
         return out
-    n = 60 if quick else 600
+    n = 40 if quick else 600
     opts = progs.Opts(loop_else=False, reads='safe', boolops=True, comprehension=True, max_stmts=9, fresh_for_targets=True,
                       try_=False, with_=False)
     srcs = [progs.gen_function(rnd, opts) for _ in range(n)]
@@ -384,7 +384,7 @@ def functionalise_tie(run, rnd, quick):
     function (symtable of the generated code) are exported and Coq evaluates the side conditions of functionalise_correct.
     -> (message or None, programs whose conditions fail)"""
     from export import fn as fn_mod
-    n = 120 if quick else 1500
+    n = 80 if quick else 1500
     o1 = progs.Opts(loop_else=False, reads='safe', try_=False, with_=False, raise_=False, max_stmts=14, fresh_for_targets=True,
                     nested_def=False)
     o2 = progs.Opts(loop_else=False, reads='safe', try_=False, with_=False, raise_=False, max_stmts=16, max_depth=5,
